@@ -91,7 +91,10 @@ class Routine(Schedule, CommentableMixin):
         is_eq = super().__eq__(other)
         is_eq = is_eq and self.name == other.name
         is_eq = is_eq and self.is_program == other.is_program
-        is_eq = is_eq and self.return_symbol == other.return_symbol
+        # As for References, symbols are compared by name (TODO #1698): the
+        # return symbol of a copy belongs to the symbol table of the copy.
+        is_eq = is_eq and (getattr(self.return_symbol, "name", None) ==
+                           getattr(other.return_symbol, "name", None))
 
         return is_eq
 
